@@ -211,6 +211,9 @@ def run_case(ck, paths, tools, idx):
     if min(len(x), len(y)) >= 500:
         ck.count("certified_shorter_side_ge_500")
     ck.count("margin_bucket_%s" % ("lt2x" if margin < 2 * bias else "lt10x" if margin < 10 * bias else "ge10x"))
+    if len(x) + len(y) < 1500:
+        with ck.lock:
+            ck.__dict__.setdefault("certified_pool", []).append((recs, kal.TYPES[word], gpo, gpe, tgpe, exp, kind))
     if got != exp:
         k = next((i for i in range(min(len(got), len(exp))) if got[i] != exp[i]), min(len(got), len(exp)))
         ck.violation("certified-optimum-not-returned:%s:%s" % (pairing, "ge500" if min(len(x), len(y)) >= 500 else "lt500"),
@@ -223,12 +226,49 @@ def run_case(ck, paths, tools, idx):
         ck.sample({"kind": kind, "pairing": pairing, "lens": [len(x), len(y)], "margin": round(margin, 3), "bound": round(bias, 3), "indel": has_indel})
 
 
+def multi_call(ck, paths):
+    """certified cases of different types aligned one after the other in ONE process (library path): each must still return its optimum"""
+    pool = getattr(ck, "certified_pool", [])
+    rng = ck.rng.__class__(ck.seed * 7 + 1)
+    rng.shuffle(pool)
+    batches = [pool[i:i + 6] for i in range(0, min(len(pool), 120), 6)]
+
+    def one(batch):
+        script = []
+        for k, (recs, ty, gpo, gpe, tgpe, exp, kind) in enumerate(batch):
+            f = ck.tmp(".fa")
+            common.write_bytes(f, fmt.write_fasta(recs))
+            script += ["read %d %s" % (k, f), "run %d %d %d %s %s %s" % (k, rng.choice([1, 4]), ty, common.fnum(gpo if gpo is not None else -1), common.fnum(gpe if gpe is not None else -1),
+                                                                     common.fnum(tgpe if tgpe is not None else -1)), "dump %d" % k, "free %d" % k]
+        r, lrecs = common.kvdrv(paths, script, scratch=ck.scratch, timeout=900, cpu=600)
+        ctx = {"multi_call": True, "kinds": [b[6] for b in batch]}
+        if ck.proc_violations(r, ctx, allow_rcs=(0,)):
+            return
+        dumps = [z for z in lrecs if z.get("op") == "dump"]
+        for k, (recs, ty, gpo, gpe, tgpe, exp, kind) in enumerate(batch):
+            if k >= len(dumps):
+                break
+            rd = {z["name"]: z["seq"] for z in dumps[k]["rows"]}
+            if "x0" not in rd or "y0" not in rd:
+                continue
+            rx, ry = rd["x0"], rd["y0"]
+            keep = [i for i in range(len(rx)) if rx[i] != "-" or ry[i] != "-"]
+            got = [(rx[i], ry[i]) for i in keep]
+            ck.count("certified_cases_rerun_in_a_multi_call_process")
+            if got != exp:
+                ck.violation("certified-optimum-not-returned:after-earlier-calls-in-the-same-process",
+                             "call %d of a sequence of kalign_run calls with different types (%s) does not return its certified optimum (it does when run alone)" % (k, [b[6] for b in batch]),
+                             dict(ctx, input=recs, call=k))
+    common.pmap(one, batches, workers=8)
+
+
 def run(ck, tier):
     paths = build("asan")
     tools = build_ref()
     sc = getattr(ck, "scale", 1.0)
     n = int((900 if tier == "quick" else 12000) * sc)
     common.pmap(lambda i: run_case(ck, paths, tools, i), range(n), workers=12)
+    multi_call(ck, paths)
     if ck.cov.get("certified", 0) < (200 if tier == "quick" else 2000) * min(1.0, sc):
         ck.note_inconclusive("only %d certified cases" % ck.cov.get("certified", 0))
     ck.rule = ("planted pairwise alignments (random core, 0-20% substitutions, indels of 1..25 separated by >= 12 (sometimes only 3 or 6) conserved columns, terminal overhangs 0..150) for all five "
